@@ -116,16 +116,35 @@ theorem sortDesc_desc (l : List Val) : Desc (sortDesc l) :=
 
 /-! ### the valset of one chain -/
 
+theorem chosen_length_le (c : Nat) (v : Val) : (chosen c v).length ≤ 1 := by
+  unfold chosen
+  simp only [List.length_take]
+  omega
+
+theorem mem_chosen {c : Nat} {v : Val} {a : Acct} :
+    a ∈ chosen c v ↔ (matching c v).head? = some a := by
+  unfold chosen
+  cases matching c v with
+  | nil => simp
+  | cons x xs => simp [eq_comm]
+
+theorem mem_matching {c : Nat} {v : Val} {a : Acct} :
+    a ∈ matching c v ↔ a ∈ v.accts ∧ isEvm a.ctype = true ∧ a.chain = c := by
+  unfold matching
+  simp [List.mem_filter]
+
 theorem mem_membersOf {c total : Nat} {v : Val} {m : Nat × Nat} :
     m ∈ membersOf c total v ↔
-      ∃ a ∈ v.accts, isEvm a.ctype = true ∧ a.chain = c ∧ m = (a.addr, power v.share total) := by
-  unfold membersOf matching
-  simp only [List.mem_map, List.mem_filter, Bool.and_eq_true, beq_iff_eq]
+      ∃ a, (matching c v).head? = some a ∧ m = (a.addr, power v.share total) := by
+  unfold membersOf
+  simp only [List.mem_map, mem_chosen]
   constructor
-  · rintro ⟨a, ⟨ha, h1, h2⟩, rfl⟩
-    exact ⟨a, ha, h1, h2, rfl⟩
-  · rintro ⟨a, ha, h1, h2, rfl⟩
-    exact ⟨a, ⟨ha, h1, h2⟩, rfl⟩
+  · rintro ⟨a, ha, rfl⟩; exact ⟨a, ha, rfl⟩
+  · rintro ⟨a, ha, rfl⟩; exact ⟨a, ha, rfl⟩
+
+theorem head_matching {c : Nat} {v : Val} {a : Acct} (h : (matching c v).head? = some a) :
+    a ∈ v.accts ∧ isEvm a.ctype = true ∧ a.chain = c :=
+  mem_matching.mp (List.mem_of_head? h)
 
 theorem transform_members_perm (snap : Snapshot) (c : Nat) :
     (transform snap c).members.Perm (snap.vals.flatMap (membersOf c (sumShares snap.vals))) := by
@@ -140,9 +159,9 @@ theorem transform_congr (a b : Snapshot) (c : Nat) (hid : b.id = a.id) (hv : b.v
   rw [hid, hv]
 
 theorem sum_map_snd_membersOf (c total : Nat) (v : Val) :
-    ((membersOf c total v).map (·.2)).sum = (matching c v).length * power v.share total := by
+    ((membersOf c total v).map (·.2)).sum = (chosen c v).length * power v.share total := by
   unfold membersOf
-  generalize matching c v = l
+  generalize chosen c v = l
   induction l with
   | nil => simp
   | cons a as ih =>
@@ -151,7 +170,7 @@ theorem sum_map_snd_membersOf (c total : Nat) (v : Val) :
 
 theorem sum_flatMap_members (c total : Nat) (l : List Val) :
     ((l.flatMap (membersOf c total)).map (·.2)).sum =
-      (l.map (fun v => (matching c v).length * power v.share total)).sum := by
+      (l.map (fun v => (chosen c v).length * power v.share total)).sum := by
   induction l with
   | nil => simp
   | cons v vs ih =>
@@ -160,7 +179,7 @@ theorem sum_flatMap_members (c total : Nat) (l : List Val) :
 
 theorem powerSum_transform (snap : Snapshot) (c : Nat) :
     powerSum (transform snap c) =
-      (snap.vals.map (fun v => (matching c v).length * power v.share (sumShares snap.vals))).sum := by
+      (snap.vals.map (fun v => (chosen c v).length * power v.share (sumShares snap.vals))).sum := by
   unfold powerSum
   rw [((transform_members_perm snap c).map _).sum_nat]
   exact sum_flatMap_members _ _ _
@@ -515,113 +534,6 @@ theorem run_snapsExtend {s : St} (ops : List Op) (h : Inv s) : SnapsExtend s.sna
   | nil => exact SnapsExtend.refl _
   | cons op ops ih => exact (step_snapsExtend op h).trans (ih (inv_step op h))
 
-/-! ### at most one EVM account per chain -/
-
-/-- the list holds at most one EVM account on every chain -/
-def UniqueOn (l : List Acct) : Prop :=
-  ∀ c, (l.filter (fun a => isEvm a.ctype && a.chain == c)).length ≤ 1
-
-/-- registrations of the history carry at most one EVM account per chain -/
-def OpUnique : Op → Prop
-  | .register _ a => UniqueOn a
-  | _ => True
-
-structure UInv (s : St) : Prop where
-  accts : ∀ p ∈ s.accts, UniqueOn p.2
-  snaps : ∀ sn ∈ s.snaps, ∀ v ∈ sn.vals, UniqueOn v.accts
-
-theorem uinv_init : UInv St.init := by
-  constructor <;> simp [St.init]
-
-theorem acctsOf_unique {s : St} (h : ∀ p ∈ s.accts, UniqueOn p.2) (v : Nat) : UniqueOn (acctsOf s v) := by
-  unfold acctsOf
-  cases hf : s.accts.find? (fun p => p.1 == v) with
-  | none => intro c; simp
-  | some p => simpa using h p (List.mem_of_find?_eq_some hf)
-
-theorem mem_putAccts {l : List (Nat × List Acct)} {v : Nat} {a : List Acct} {p : Nat × List Acct}
-    (h : p ∈ putAccts l v a) : p = (v, a) ∨ p ∈ l := by
-  unfold putAccts at h
-  split at h
-  · obtain ⟨q, hq, rfl⟩ := List.mem_map.mp h
-    split
-    · left; rfl
-    · right; exact hq
-  · rcases List.mem_append.mp h with h | h
-    · right; exact h
-    · left; simpa using h
-
-theorem uinv_frame {s s' : St} (h : UInv s) (h1 : s'.snaps = s.snaps) (h2 : s'.accts = s.accts) : UInv s' :=
-  ⟨by rw [h2]; exact h.accts, by rw [h1]; exact h.snaps⟩
-
-theorem uinv_step {s : St} (op : Op) (hi : Inv s) (h : UInv s) (hu : OpUnique op) : UInv (step s op) := by
-  cases op with
-  | setStaking l => exact uinv_frame h rfl rfl
-  | register v a =>
-    simp only [step, register]
-    split
-    · exact h
-    · split
-      · exact h
-      · split
-        · exact h
-        · refine ⟨?_, h.snaps⟩
-          intro p hp
-          rcases mem_putAccts hp with rfl | hp
-          · exact hu
-          · exact h.accts p hp
-  | support c =>
-    simp only [step, support]
-    split
-    · exact h
-    · exact uinv_frame h rfl rfl
-  | activate c =>
-    simp only [step, activate]
-    split
-    · exact h
-    · exact uinv_frame h rfl rfl
-  | remove c =>
-    simp only [step, remove]
-    split
-    · exact h
-    · exact uinv_frame h rfl rfl
-  | build now picks =>
-    simp only [step]
-    cases hw : (!worthy (current s) (createSnapshot s now))
-    · have hg := build_good now picks hi hw
-      refine ⟨by rw [hg.accts]; exact h.accts, ?_⟩
-      rw [hg.snaps]
-      intro sn hsn v hv
-      simp only [storeAsCurrent, List.mem_append, List.mem_singleton] at hsn
-      rcases hsn with hsn | rfl
-      · exact h.snaps sn hsn v hv
-      · simp only [createSnapshot, List.mem_map] at hv
-        obtain ⟨sv, _, rfl⟩ := hv
-        exact acctsOf_unique h.accts sv.id
-    · unfold build
-      simp only [hw, if_true]
-      exact h
-  | onChain id c =>
-    simp only [step, setOnChain]
-    split
-    · exact h
-    · refine ⟨h.accts, ?_⟩
-      intro sn hsn v hv
-      obtain ⟨sn0, hsn0, rfl⟩ := List.mem_map.mp hsn
-      split at hv
-      · exact h.snaps sn0 hsn0 v hv
-      · exact h.snaps sn0 hsn0 v hv
-  | jit c pick =>
-    have hg := jit_good c pick hi
-    exact uinv_frame h hg.snaps hg.accts
-
-theorem uinv_run {s : St} (ops : List Op) (hi : Inv s) (h : UInv s) (hu : ∀ op ∈ ops, OpUnique op) :
-    UInv (run s ops) := by
-  induction ops generalizing s with
-  | nil => exact h
-  | cons op ops ih =>
-    exact ih (inv_step op hi) (uinv_step op hi h (hu op (by simp))) (fun o ho => hu o (by simp [ho]))
-
 end Lemmas
 
 /-! ## Property theorems (C10) -/
@@ -777,49 +689,83 @@ theorem store_only_grows (ops0 ops : List Op) :
   (run_snapsExtend ops (inv_reachable ops0)).1
 
 /-- **powers_floor** ("each with its stake fraction scaled to 2^32 and rounded down as power").
-Every entry of the valset for `chain` is the remote address of an EVM account on `chain` of a
-snapshot validator, and its power is exactly `⌊share · 2^32 / Σ shares⌋`. -/
+Every entry of the valset for `chain` is the remote address of the first EVM account on `chain`
+of a snapshot validator, and its power is exactly `⌊share · 2^32 / Σ shares⌋`. -/
 theorem powers_floor (snap : Snapshot) (chain : Nat) (m : Nat × Nat)
     (h : m ∈ (transform snap chain).members) :
-    ∃ v ∈ snap.vals, ∃ a ∈ v.accts, isEvm a.ctype = true ∧ a.chain = chain ∧ m.1 = a.addr ∧
-      m.2 = v.share * 2 ^ 32 / (snap.vals.map (·.share)).sum := by
+    ∃ v ∈ snap.vals, ∃ a ∈ v.accts, isEvm a.ctype = true ∧ a.chain = chain ∧
+      (v.accts.filter (fun a => isEvm a.ctype && a.chain == chain)).head? = some a ∧
+      m.1 = a.addr ∧ m.2 = v.share * 2 ^ 32 / (snap.vals.map (·.share)).sum := by
   have hm := (transform_members_perm snap chain).mem_iff.mp h
   obtain ⟨v, hv, hmv⟩ := List.mem_flatMap.mp hm
-  obtain ⟨a, ha, h1, h2, rfl⟩ := mem_membersOf.mp hmv
-  exact ⟨v, hv, a, ha, h1, h2, rfl, rfl⟩
+  obtain ⟨a, ha, rfl⟩ := mem_membersOf.mp hmv
+  obtain ⟨h1, h2, h3⟩ := head_matching ha
+  exact ⟨v, hv, a, h1, h2, h3, ha, rfl, rfl⟩
 
 /-- **powers_floor for stored snapshots**: the divisor is the snapshot's recorded total. -/
 theorem powers_floor_created (s : St) (now chain : Nat) (m : Nat × Nat)
     (h : m ∈ (transform (createSnapshot s now) chain).members) :
     ∃ v ∈ (createSnapshot s now).vals, ∃ a ∈ v.accts, isEvm a.ctype = true ∧ a.chain = chain ∧
-      m.1 = a.addr ∧ m.2 = v.share * 2 ^ 32 / (createSnapshot s now).total :=
-  powers_floor _ _ _ h
+      m.1 = a.addr ∧ m.2 = v.share * 2 ^ 32 / (createSnapshot s now).total := by
+  obtain ⟨v, hv, a, ha, h1, h2, _, h3, h4⟩ := powers_floor _ _ _ h
+  exact ⟨v, hv, a, ha, h1, h2, h3, h4⟩
 
 /-- **restricted_to_chain** ("that snapshot restricted to validators with an account there").
 The valset for `chain` is, up to order, the list obtained by walking the snapshot validators and
-emitting one entry per EVM account the validator has on `chain`: a validator without such an
-account contributes nothing, a validator with exactly one contributes exactly one entry; the
-entries are ordered by non-increasing power; the valset carries the snapshot's id. -/
+emitting ONE entry — address of the first EVM account on `chain`, floored power — for every
+validator that has such an account and nothing for the others; so it has exactly as many entries
+as there are validators with an account there; the entries are ordered by non-increasing power;
+the valset carries the snapshot's id. -/
 theorem restricted_to_chain (snap : Snapshot) (chain : Nat) :
     (transform snap chain).id = snap.id ∧
     (transform snap chain).members.Perm
       (snap.vals.flatMap (fun v =>
-        (v.accts.filter (fun a => isEvm a.ctype && a.chain == chain)).map
+        ((v.accts.filter (fun a => isEvm a.ctype && a.chain == chain)).take 1).map
           (fun a => (a.addr, v.share * 2 ^ 32 / (snap.vals.map (·.share)).sum)))) ∧
+    (transform snap chain).members.length =
+      (snap.vals.filter (fun v => v.accts.any (fun a => isEvm a.ctype && a.chain == chain))).length ∧
     (∀ addr, addr ∈ (transform snap chain).members.map (·.1) ↔
-      ∃ v ∈ snap.vals, ∃ a ∈ v.accts, isEvm a.ctype = true ∧ a.chain = chain ∧ a.addr = addr) ∧
+      ∃ v ∈ snap.vals, ∃ a,
+        (v.accts.filter (fun a => isEvm a.ctype && a.chain == chain)).head? = some a ∧ a.addr = addr) ∧
     ((transform snap chain).members.map (·.2)).Pairwise (· ≥ ·) := by
-  refine ⟨rfl, transform_members_perm snap chain, ?_, ?_⟩
+  refine ⟨rfl, transform_members_perm snap chain, ?_, ?_, ?_⟩
+  · rw [(transform_members_perm snap chain).length_eq]
+    generalize sumShares snap.vals = total
+    induction snap.vals with
+    | nil => simp
+    | cons v vs ih =>
+      simp only [List.flatMap_cons, List.length_append, ih, List.filter_cons]
+      have hl : (membersOf chain total v).length =
+          if v.accts.any (fun a => isEvm a.ctype && a.chain == chain) then 1 else 0 := by
+        unfold membersOf chosen matching
+        simp only [List.length_map, List.length_take]
+        cases hf : v.accts.filter (fun a => isEvm a.ctype && a.chain == chain) with
+        | nil =>
+          have : v.accts.any (fun a => isEvm a.ctype && a.chain == chain) = false := by
+            rw [List.any_eq_false]
+            intro a ha hp
+            have : a ∈ v.accts.filter (fun a => isEvm a.ctype && a.chain == chain) :=
+              List.mem_filter.mpr ⟨ha, hp⟩
+            rw [hf] at this; simp at this
+          simp [this]
+        | cons x xs =>
+          have hx : x ∈ v.accts.filter (fun a => isEvm a.ctype && a.chain == chain) := by
+            rw [hf]; simp
+          have : v.accts.any (fun a => isEvm a.ctype && a.chain == chain) = true :=
+            List.any_eq_true.mpr ⟨x, (List.mem_filter.mp hx).1, (List.mem_filter.mp hx).2⟩
+          simp [this]
+      rw [hl]
+      split <;> simp <;> omega
   · intro addr
     simp only [List.mem_map]
     constructor
     · rintro ⟨m, hm, rfl⟩
-      obtain ⟨v, hv, a, ha, h1, h2, h3, _⟩ := powers_floor snap chain m hm
-      exact ⟨v, hv, a, ha, h1, h2, h3.symm⟩
-    · rintro ⟨v, hv, a, ha, h1, h2, rfl⟩
+      obtain ⟨v, hv, a, _, _, _, hh, h3, _⟩ := powers_floor snap chain m hm
+      exact ⟨v, hv, a, hh, h3.symm⟩
+    · rintro ⟨v, hv, a, hh, rfl⟩
       refine ⟨(a.addr, power v.share (sumShares snap.vals)), ?_, rfl⟩
       apply (transform_members_perm snap chain).mem_iff.mpr
-      exact List.mem_flatMap.mpr ⟨v, hv, mem_membersOf.mpr ⟨a, ha, h1, h2, rfl⟩⟩
+      exact List.mem_flatMap.mpr ⟨v, hv, mem_membersOf.mpr ⟨a, hh, rfl⟩⟩
   · -- order: the validators are walked by non-increasing share and power is monotone in the share
     unfold transform
     simp only
@@ -840,36 +786,33 @@ theorem restricted_to_chain (snap : Snapshot) (chain : Nat) :
       · intro p hp q hq
         obtain ⟨m, hm, rfl⟩ := List.mem_map.mp hp
         obtain ⟨m', hm', rfl⟩ := List.mem_map.mp hq
-        obtain ⟨a, _, _, _, rfl⟩ := mem_membersOf.mp hm
+        obtain ⟨a, _, rfl⟩ := mem_membersOf.mp hm
         obtain ⟨w, hw, hmw⟩ := List.mem_flatMap.mp hm'
-        obtain ⟨b, _, _, _, rfl⟩ := mem_membersOf.mp hmw
+        obtain ⟨b, _, rfl⟩ := mem_membersOf.mp hmw
         exact power_mono _ _ _ (hv.1 w hw)
 
-/-- **powers_sum_le** ("so powers sum to at most 2^32"). If no snapshot validator has more than
-one EVM account on `chain`, the powers of the valset for `chain` sum to at most `2^32`
-(also when the total stake is 0: all powers are then 0). -/
-theorem powers_sum_le (snap : Snapshot) (chain : Nat)
-    (h : ∀ v ∈ snap.vals, (v.accts.filter (fun a => isEvm a.ctype && a.chain == chain)).length ≤ 1) :
+/-- **powers_sum_le** ("so powers sum to at most 2^32"). For EVERY snapshot and chain the powers
+of the valset sum to at most `2^32` (also when the total stake is 0: all powers are then 0, and
+also when validators registered several accounts on the chain: each is listed once). -/
+theorem powers_sum_le (snap : Snapshot) (chain : Nat) :
     ((transform snap chain).members.map (·.2)).sum ≤ 2 ^ 32 := by
   have := powerSum_transform snap chain
   unfold powerSum at this
   rw [this]
   have h1 : ∀ (l : List Val) (total : Nat),
-      (∀ v ∈ l, (matching chain v).length ≤ 1) →
-      (l.map (fun v => (matching chain v).length * power v.share total)).sum ≤
+      (l.map (fun v => (chosen chain v).length * power v.share total)).sum ≤
         (l.map (fun v => power v.share total)).sum := by
-    intro l total hl
+    intro l total
     induction l with
     | nil => simp
     | cons v vs ih =>
       simp only [List.map_cons, List.sum_cons]
-      have hv : (matching chain v).length ≤ 1 := hl v (by simp)
-      have := ih (fun w hw => hl w (by simp [hw]))
-      have : (matching chain v).length * power v.share total ≤ power v.share total := by
+      have hv : (chosen chain v).length ≤ 1 := chosen_length_le chain v
+      have : (chosen chain v).length * power v.share total ≤ power v.share total := by
         have := Nat.mul_le_mul_right (power v.share total) hv
         simpa using this
       omega
-  have h1 := h1 snap.vals (sumShares snap.vals) h
+  have h1 := h1 snap.vals (sumShares snap.vals)
   have h2 := sum_power_le (snap.vals.map (·.share)) (sumShares snap.vals)
   rw [List.map_map] at h2
   have h3 : power (snap.vals.map (·.share)).sum (sumShares snap.vals) ≤ maxPower :=
@@ -885,16 +828,45 @@ theorem powers_sum_le_of_shares (shares : List Nat) (total : Nat) (h : shares.su
     (shares.map (fun a => a * 2 ^ 32 / total)).sum ≤ 2 ^ 32 :=
   Nat.le_trans (sum_power_le shares total) (power_le_max _ _ h)
 
-/-- **powers_sum_le over histories.** If every registration of the history carries at most one
-EVM account per chain, then every valset ever sent has powers summing to at most `2^32`.
-(Without the hypothesis this is false in the implementation: see the last examples below.) -/
-theorem sent_sum_le (ops : List Op) (hu : ∀ op ∈ ops, OpUnique op) :
+/-- **powers_sum_le over histories.** Every valset ever sent, in every history, has powers
+summing to at most `2^32` (and at least the quorum constant, see below). -/
+theorem sent_sum_le (ops : List Op) :
     ∀ p ∈ (run St.init ops).sent, (p.2.members.map (·.2)).sum ≤ 2 ^ 32 := by
   intro p hp
-  obtain ⟨_, sn, hsn, he⟩ := (inv_reachable ops).sentOk p hp
-  have hun := uinv_run ops inv_init uinv_init hu
+  obtain ⟨_, sn, _, he⟩ := (inv_reachable ops).sentOk p hp
   rw [he]
-  exact powers_sum_le sn p.1 (fun v hv => hun.snaps sn hsn v hv p.1)
+  exact powers_sum_le sn p.1
+
+/-- the valset as the PINNED tree built it (before repo fix 8962e1ca): one entry per matching
+account, so a validator with two EVM accounts on the chain was listed — and counted — twice -/
+def transformPinned (snap : Snapshot) (chain : Nat) : Valset :=
+  { id := snap.id,
+    members := (sortDesc snap.vals).flatMap (fun v =>
+      (matching chain v).map (fun a => (a.addr, power v.share (sumShares (sortDesc snap.vals))))) }
+
+/-- **negation witness for the pinned tree**: with that construction the powers of a one-validator
+snapshot sum to `2^33 > 2^32`; the fixed construction lists the validator once. -/
+theorem pinned_double_counts :
+    powerSum (transformPinned ⟨7, [⟨1, 5, [⟨0, 1, 11, []⟩, ⟨1, 1, 12, []⟩]⟩], 5, 0, []⟩ 1) = 2 ^ 33 ∧
+    (transform ⟨7, [⟨1, 5, [⟨0, 1, 11, []⟩, ⟨1, 1, 12, []⟩]⟩], 5, 0, []⟩ 1).members = [(11, 2 ^ 32)] := by
+  decide
+
+/-- where both constructions agree: no validator has two EVM accounts on the chain -/
+theorem transformPinned_eq (snap : Snapshot) (chain : Nat)
+    (h : ∀ v ∈ snap.vals, (matching chain v).length ≤ 1) : transformPinned snap chain = transform snap chain := by
+  unfold transformPinned transform
+  have key : ∀ (l : List Val) (total : Nat), (∀ v ∈ l, (matching chain v).length ≤ 1) →
+      l.flatMap (fun v => (matching chain v).map (fun a => (a.addr, power v.share total))) =
+        l.flatMap (membersOf chain total) := by
+    intro l total hl
+    induction l with
+    | nil => rfl
+    | cons v vs ih =>
+      simp only [List.flatMap_cons]
+      rw [ih (fun w hw => hl w (by simp [hw]))]
+      unfold membersOf chosen
+      rw [List.take_of_length_le (hl v (by simp))]
+  rw [key _ _ (fun v hv => h v (mem_sortDesc.mp hv))]
 
 /-- **sent_only_with_quorum** ("it is only sent when those powers sum to at least two thirds of
 2^32" — with the implementation's constant). Over all histories: every UpdateValset message ever
@@ -977,11 +949,12 @@ example : (transform ⟨7, [⟨1, 2 ^ 62, [⟨0, 1, 11, []⟩]⟩, ⟨2, 2 ^ 62,
 example : (transform ⟨7, [⟨1, 5, [⟨0, 1, 11, []⟩]⟩, ⟨2, 9, [⟨0, 1, 12, []⟩]⟩, ⟨3, 5, [⟨1, 1, 13, []⟩]⟩, ⟨4, 5, [⟨2, 1, 14, []⟩]⟩], 24, 0, []⟩ 1).members.map (·.1) =
     [12, 13, 11] := by decide
 
-/-- the hypothesis of `powers_sum_le` is needed: a validator with two EVM accounts on the chain
-is listed twice and the powers sum to 2^33 -/
-example : powerSum (transform ⟨7, [⟨1, 5, [⟨0, 1, 11, []⟩, ⟨1, 1, 12, []⟩]⟩], 5, 0, []⟩ 1) = 2 ^ 33 := by decide
-
-/-- … and registration accepts such a list (nothing in `SetExternalChainInfoState` forbids it) -/
+/-- registration accepts two EVM accounts on one chain (nothing in `SetExternalChainInfoState`
+forbids it); such a validator is listed ONCE, under its first account -/
 example : (register (run St.init [.setStaking exStaking]) 1 [⟨0, 1, 11, []⟩, ⟨1, 1, 12, []⟩]).2 = .ok := by decide
+
+example : (run St.init [.setStaking [⟨1, .bonded, false, 5⟩, ⟨2, .bonded, false, 5⟩], .support 1, .activate 1,
+    .register 1 [⟨0, 1, 11, []⟩, ⟨1, 1, 12, []⟩], .register 2 [⟨2, 1, 14, []⟩, ⟨0, 1, 13, []⟩],
+    .build 20 [1]]).sent = [(1, ⟨1, [(13, 2 ^ 31), (11, 2 ^ 31)]⟩)] := by decide
 
 end Paloma.Valset
